@@ -64,14 +64,14 @@ def cases(tier, seed):
         return o
 
     for rep in range(1 if tier == "quick" else 30):
-        for spec in workload.lattice_cases(seed * 47 + rep, opts_fn=opts, p={"damage_prob": 0.3, "dense_prob": 0.7,
+        for spec in workload.lattice_cases(seed * 47 + rep, opts_fn=opts, p={"damage_prob": 0.3, "carboxyl_asym_prob": 0.4, "dense_prob": 0.7,
                                                                              "hydrogens": ["none", "none", "some"]}):
             spec["kind"] = "run"
             out.append(spec)
     n = 170 if tier == "quick" else 18000
     for spec in workload.standard_cases(tier, seed, n, n, opts_fn=opts, frag_share=0.35,
                                         p={"icode_prob": 0.2, "variant_prob": 0.15, "na_prob": 0.15, "waters": [0, 2, 5, 8],
-                                           "damage_prob": 0.3, "gap_prob": 0.25, "bb_damage_prob": 0.04, "dense_prob": 0.8, "crowd_prob": 0.3,
+                                           "damage_prob": 0.3, "carboxyl_asym_prob": 0.4, "gap_prob": 0.25, "bb_damage_prob": 0.04, "dense_prob": 0.8, "crowd_prob": 0.3,
                                            "hydrogens": ["none", "none", "some", "side"]}):
         spec["kind"] = "run"
         out.append(spec)
